@@ -20,6 +20,7 @@ import Nlmodel.Proofs.Lemmas.Sim8Example
 import Nlmodel.Proofs.Lemmas.DivCtlExample
 import Nlmodel.Proofs.Lemmas.Div6Example
 import Nlmodel.Proofs.Lemmas.Div7Example
+import Nlmodel.Proofs.Lemmas.Div8Example
 namespace Nl
 namespace C01
 
@@ -656,6 +657,18 @@ theorem C01_nested_functions_machine_answer_is_definitional (cc : CharClass) (sr
     (hne : evalText cc b src ≠ .budget) (hnl : ¬ ∃ n out, ∀ k, evalText cc (n + k) src = .error .index out) :
     ∃ F, specText cc F src = evalText cc b src ∨ specText cc F src = .unspec :=
   Sim7.eval_text7_converse_checked cc src ast r bc hp hs hc b hne hnl
+
+/-- stage 8 (named literals in every expression position; validated fragment, the hypotheses of `C01_named_literals_eval_text`) -/
+theorem C01_named_literals_divergence (cc : CharClass) (src : Text) (ast : Block) (r : RBlock) (bc : Bytecode) (hp : parse cc src = .ok ast)
+    (hc : compileProgram ast = .ok (r, bc)) (hin : Sim8.inFragment8 r = true) (hdiv : ∀ F, specText cc F src = .budget) (b : Nat) :
+    evalText cc b src = .budget ∨ (∃ n out, ∀ k, evalText cc (n + k) src = .error .index out) :=
+  Sim8.eval_text8_div cc src ast r bc hp hc hin hdiv b
+
+theorem C01_named_literals_machine_answer_is_definitional (cc : CharClass) (src : Text) (ast : Block) (r : RBlock) (bc : Bytecode)
+    (hp : parse cc src = .ok ast) (hc : compileProgram ast = .ok (r, bc)) (hin : Sim8.inFragment8 r = true) (b : Nat)
+    (hne : evalText cc b src ≠ .budget) (hnl : ¬ ∃ n out, ∀ k, evalText cc (n + k) src = .error .index out) :
+    ∃ F, specText cc F src = evalText cc b src ∨ specText cc F src = .unspec :=
+  Sim8.eval_text8_converse cc src ast r bc hp hc hin b hne hnl
 
 /-- non-vacuity: programs that really diverge in the definitional semantics (proved for every fuel): a loop whose variable
     flips between 0 and 1, a function that calls itself forever, a returned nested literal that loops -/
